@@ -206,6 +206,28 @@ impl<'m> Interp<'m> {
                         return unsupported("cast that adds vector components");
                     }
                 }
+                // an array or struct cast to a scalar: the first element of the flattened operand
+                fn first_leaf(v: &V) -> Option<V> {
+                    match v {
+                        V::Array(items) | V::Struct(items) => items.iter().find_map(first_leaf),
+                        V::Vec(items) => items.first().cloned(),
+                        V::Void => None,
+                        other => Some(other.clone()),
+                    }
+                }
+                let leaf;
+                let v = if matches!(v, V::Array(_) | V::Struct(_)) {
+                    if dim != 1 {
+                        return unsupported("cast of an array or struct to a vector");
+                    }
+                    leaf = match first_leaf(v) {
+                        Some(l) => l,
+                        None => return unsupported("cast of an array or struct without elements"),
+                    };
+                    &leaf
+                } else {
+                    v
+                };
                 let r = conv(v, k, dim);
                 // a one-element vector type keeps its vector shape
                 Ok(if dim == 1 && self.is_vector_type(ty) { V::Vec(vec![r]) } else { r })
